@@ -554,6 +554,12 @@ func runC07(c *Ctx) {
 		}
 	}
 
+	// the checksum routine shared by the IPv4 header and both ICMP senders folds its carries before truncating
+	// (the same rule as C15's; a lost carry makes emitted checksums fail to verify for some field values)
+	if cs := c.A.Func("", "Checksum"); cs != nil {
+		runC15Fold(c, cs)
+	}
+
 	// ---- multicast constants ----
 	ce := &constEval{c.P}
 	nConst := 0
